@@ -391,6 +391,10 @@ def chain_cases(tier):
                         yield {'schema': schema, 'depth': depth, 'types': types, 'dev': dev, 'at': at}
 
 
+CTOR_KINDS = ('anchor-outside-roots', 'anchor-intermediate-name', 'bad-self-signature', 'missing-user-function',
+              'two-roots-first', 'two-roots-second', 'two-roots-other')
+
+
 def run_constructor(kind):
     viol = []
     net = Net()
@@ -412,6 +416,19 @@ def run_constructor(kind):
                 anchor = bytes(anchor)
         elif kind == 'bad-self-signature':
             anchor = anchor[:-3] + bytes([anchor[-3] ^ 0x40]) + anchor[-2:]
+        elif kind in ('two-roots-first', 'two-roots-second'):
+            # two independent roots of trust: an anchor matching only one of them (whichever) is not enough
+            two = SCHEMA_LINEAR + '#anchor2: "u"/#KEY\n#e1: "u"/"data"/x <= #anchor2\n'
+            if kind == 'two-roots-second':
+                two = '#anchor2: "u"/#KEY\n#e1: "u"/"data"/x <= #anchor2\n' + SCHEMA_LINEAR
+            ck = Checker(compile_lvs(two), DEFAULT_USER_FNS)
+        elif kind == 'two-roots-other':
+            two = SCHEMA_LINEAR + '#anchor2: "u"/#KEY\n#e1: "u"/"data"/x <= #anchor2\n'
+            ck = Checker(compile_lvs(two), DEFAULT_USER_FNS)
+            with owned_random('c14-ctor3'):
+                kn = enc.Name.from_str('/u/KEY/%01')
+                _, anchor = sv2.self_sign(kn, pub_der('ec256_0'), signer_for('ec256_0', kn))
+                anchor = bytes(anchor)
         elif kind == 'missing-user-function':
             ck = Checker(compile_lvs(SCHEMA_LINEAR.replace('#d1: #site/"data"/"d1"/x <= #anchor', '#d1: #site/"data"/"d1"/x & {x: $custom("a")} <= #anchor')), {})
         try:
@@ -424,6 +441,72 @@ def run_constructor(kind):
     finally:
         net.close()
     return viol
+
+
+# -- bindings shared between the packet name and the key name --------------------------------------------------------------------
+SCHEMA_BIND = '''
+#site: "t"
+#KEY: "KEY"/_/_/_
+#anchor: #site/#KEY
+#user: #site/"user"/u/v/#KEY <= #anchor
+#du: #site/"data"/u/v <= #user
+#dx: #site/"doc"/x/u <= #user
+#dy: #site/"rec"/v/y/u <= #user
+'''
+# (packet name, valid?) for a user certificate with u=a, v=b
+BIND_PACKETS = [('/t/data/a/b', True), ('/t/data/c/b', False), ('/t/data/a/c', False), ('/t/data/b/a', False),
+                ('/t/doc/z/a', True), ('/t/doc/a/a', True), ('/t/doc/z/c', False), ('/t/doc/a/z', False), ('/t/doc/z/b', False),
+                ('/t/rec/b/q/a', True), ('/t/rec/a/q/b', False), ('/t/rec/b/a/q', False), ('/t/rec/c/q/a', False), ('/t/rec/b/q/c', False)]
+
+
+def run_binding(idx, order):
+    """order: which rule text comes first changes the numbering of the named patterns"""
+    viol = []
+    pname, want = BIND_PACKETS[idx]
+    lines = [ln for ln in SCHEMA_BIND.strip().split('\n')]
+    # only the packet rule in question next to the key rule: every named pattern of the schema is then one that the packet name
+    # and the key name share or that the packet rule owns, whatever number the compiler gives it
+    mine = [ln for ln in lines[4:] if ln.startswith({'data': '#du', 'doc': '#dx', 'rec': '#dy'}[pname.split('/')[2]])]
+    if order == 0:
+        text = '\n'.join(lines[:4] + mine) + '\n'
+    elif order == 1:
+        text = '\n'.join(lines[:3] + mine + [lines[3]]) + '\n'        # packet rule before the key rule
+    else:
+        text = SCHEMA_BIND
+    start = dt.datetime(2024, 1, 1)
+    old = ndn_utils.time
+    ndn_utils.time = Clock()
+    try:
+        with owned_random(('c14-bind', idx)):
+            akn = enc.Name.from_str('/t/KEY/%01')
+            aname, anchor = sv2.self_sign(akn, pub_der('ec256_0'), signer_for('ec256_0', akn))
+            ukn = enc.Name.from_str('/t/user/a/b/KEY/%02')
+            uname, ucert = sv2.derive_cert(ukn, 'anchor', pub_der('ec256_1'), signer_for('ec256_0', aname), start, 3600 * 24)
+            pkt = bytes(enc.make_data(pname, enc.MetaInfo(freshness_period=1000), b'payload', signer_for('ec256_1', uname)))
+    finally:
+        ndn_utils.time = old
+    net = Net()
+    try:
+        net.stores.append({bytes(enc.Name.to_bytes(uname)): bytes(ucert)})
+        install_lark_cache()
+        try:
+            val = lvs_validator(Checker(compile_lvs(text), DEFAULT_USER_FNS), net.app, bytes(anchor))
+        except Exception as e:  # noqa
+            return [(f'C14|binding|constructor-raises:{type(e).__name__}', f'{e!r}')], 'ctor'
+        res = net.validate(val, pkt)
+        got = res.get('v')
+        if not res['done']:
+            viol.append(('C14|binding|never-finishes', f'{pname}'))
+        elif got is not True and got is not False:
+            viol.append((f'C14|binding|{got}', f'validator ended with {got} for {pname}'))
+        elif got != want:
+            viol.append((f"C14|binding|{'accepted-invalid' if got else 'rejected-valid'}",
+                         f'{pname} signed by the genuine certificate {enc.Name.to_str(uname)} (rule order {order}): verdict {got}, the schema says {want}'))
+        for f in net.loop.task_failures():
+            viol.append((f"C14|binding|task-error|{f['exception']}@{f['where']}", f'{f}'))
+    finally:
+        net.close()
+    return viol, f'{got}'
 
 
 # -- isolation ---------------------------------------------------------------------------------------------------
@@ -502,6 +585,7 @@ def plan(tier, seed):
     cases = list(chain_cases(tier))
     units = [{'kind': 'chain', 'lo': lo, 'hi': min(len(cases), lo + 8), 'tier': tier} for lo in range(0, len(cases), 8)]
     units.append({'kind': 'constructor'})
+    units.append({'kind': 'binding'})
     seqs = list(iso_sequences(tier))
     units += [{'kind': 'isolation', 'lo': lo, 'hi': min(len(seqs), lo + 12), 'tier': tier} for lo in range(0, len(seqs), 12)]
     return {
@@ -533,8 +617,21 @@ def unit(arg):
             for sig, what in viol:
                 acc.violation(sig, what, {'kind': 'chain', 'case': case})
             acc.sample({'chain_case': case, 'verdict': key})
+    elif arg['kind'] == 'binding':
+        for order in (0, 1, 2):
+            for idx in range(len(BIND_PACKETS)):
+                viol, key = run_binding(idx, order)
+                acc.evaluations += 1
+                acc.transitions += 2
+                acc.nontrivial += 1
+                acc.state(('binding', idx, order))
+                acc.outcome(f'binding|valid={BIND_PACKETS[idx][1]}|{key}')
+                acc.observe([idx, order, key, [v[0] for v in viol]])
+                for sig, what in viol:
+                    acc.violation(sig, what, {'kind': 'binding', 'idx': idx, 'order': order})
+        acc.sample({'binding_packets': [p for p, _ in BIND_PACKETS][:5], 'certificate': '/t/user/a/b/KEY/..'})
     elif arg['kind'] == 'constructor':
-        for kind in ('anchor-outside-roots', 'anchor-intermediate-name', 'bad-self-signature', 'missing-user-function'):
+        for kind in CTOR_KINDS:
             viol = run_constructor(kind)
             acc.evaluations += 1
             acc.transitions += 1
@@ -564,6 +661,8 @@ def unit(arg):
 def replay(case):
     if case['kind'] == 'chain':
         v, _ = run_chain(case['case'])
+    elif case['kind'] == 'binding':
+        v, _ = run_binding(case['idx'], case['order'])
     elif case['kind'] == 'constructor':
         v = run_constructor(case['what'])
     else:
